@@ -380,6 +380,18 @@ Section TokenCache.
     end.
 End TokenCache.
 
+(** * From the configuration file to the server flags
+
+    config.HTTPConfig.{Pprof,Dashboard,RemoteAPI}Enabled(): minimal mode
+    switches every group off whatever the group's own toggle says; otherwise
+    a group is on unless its toggle is explicitly false.  The agent passes
+    these three results (and http.token_hash) to health.NewServer. *)
+Definition group_enabled (minimal : bool) (toggle : option bool) : bool :=
+  if minimal then false else match toggle with None => true | Some b => b end.
+
+Definition flags_of_config (minimal : bool) (remote dashboard pprof : option bool) : flags :=
+  mkFlags (group_enabled minimal remote) (group_enabled minimal dashboard) (group_enabled minimal pprof).
+
 (** * Correspondence oracle *)
 
 (** observed: class 0 = 401, 1 = redirect (301), 2 = mux's own not-found,
@@ -407,7 +419,20 @@ Definition d_request (t : list str) : dec request :=
   d_map (fun '(cn, p, ep, au, qt) => mkReq cn p ep au qt)
         (d_pair (d_pair (d_pair (d_pair d_bool (d_ref t)) (d_ref t)) (d_option (d_ref t))) (d_ref t)).
 
+(** the flags travel either directly (tag 0: a health.ServerConfig built by
+    the harness) or as the http section of a configuration file (tag 1:
+    minimal, remote_api, dashboard, pprof; the server was built by the agent
+    from the parsed file) *)
+Definition d_flags : dec flags :=
+  fun s =>
+    match s with
+    | 0 :: r => d_map (fun '(a, b, c) => mkFlags a b c) (d_pair (d_pair d_bool d_bool) d_bool) r
+    | 1 :: r => d_map (fun '(m, a, b, c) => flags_of_config m a b c)
+                      (d_pair (d_pair (d_pair d_bool (d_option d_bool)) (d_option d_bool)) (d_option d_bool)) r
+    | _ => None
+    end.
+
 Definition d_case (t : list str) : dec case :=
-  d_map (fun '(fr, fd, fp, tc, rt, q, oc, op, on) => mkCase (mkFlags fr fd fp) tc rt q (mkObs oc op on))
-        (d_pair (d_pair (d_pair (d_pair (d_pair (d_pair (d_pair (d_pair d_bool d_bool) d_bool) d_bool) (d_ref t))
+  d_map (fun '(f, tc, rt, q, oc, op, on) => mkCase f tc rt q (mkObs oc op on))
+        (d_pair (d_pair (d_pair (d_pair (d_pair (d_pair d_flags d_bool) (d_ref t))
                  (d_request t)) d_N) (d_ref t)) d_bool).
